@@ -175,7 +175,7 @@ class Driver:
         self.counts[k] = self.counts.get(k, 0) + n
 
     def bad(self, key, **kw):
-        if self.ctxkey and key.split(":")[0] in ("wrong-overload", "positive-rejected", "no-typeerror", "this-mismatch", "wrong-exception"):
+        if self.ctxkey and key.split(":")[0] in ("wrong-overload", "positive-rejected", "no-typeerror", "this-mismatch", "wrong-exception", "arg-mismatch"):
             key = self.ctxkey
         if key in self.vkeys:
             return
@@ -693,6 +693,12 @@ class Driver:
             mode = "unspecified"
         else:
             mode = "negative"
+        if mode == "negative" and fns[0].get("operator") in CMP_OPS and any(a.c == "obj" for a in args):
+            # every wrapped instance is comparable by address (DTOOL_SUPER_BASE) and Python asks the right operand's
+            # reflected operator when the left one declines: comparisons between unrelated instances are not judged
+            mode = "unspecified"
+        any_oor = any(s_ is not None and self.acc(s_, p_["type"]) == "oor"
+                      for f_, st_, sl_ in sts if sl_ for s_, p_ in zip(sl_, f_["params"]))
         argdesc = [a.desc() for a in args] + [f"{k}={a.desc()}" for k, a in kw.items()]
         callsig = f"{what}({', '.join(argdesc)})" + (f" on <{recv.cls} iid={recv.iid}{' const' if recv.const else ''}>" if recv else "")
         self.step(f"{mode} {g['kind']} {g['owner']}::{g['name']} {callsig}")
@@ -764,7 +770,7 @@ class Driver:
                 if sl_:
                     for s_, p_ in zip(sl_, f_ran["params"]):
                         if s_ is not None and self.acc(s_, p_["type"]) != "yes":
-                            why = f"param={tkind(p_['type'])},arg={'int-out-of-range' if self.acc(s_, p_['type']) == 'oor' else s_.cat() if s_.c != 'junk' else s_.extra}"
+                            why = f"param={tkind(p_['type'])},arg={'int-out-of-range' if self.acc(s_, p_['type']) == 'oor' else s_.cat().replace('-const', '') if s_.c != 'junk' else s_.extra}"
                             break
                 elif f_ran is not None and f_ran.get("kind") == "ctor":
                     why = "coercion-constructor:" + ",".join(tkind(p["type"]) for p in f_ran["params"])
@@ -793,11 +799,16 @@ class Driver:
                     bads = self.neg_reason(sts, args, kw, recv)
                     self.bad(f"no-typeerror:{bads}", call=callsig, trace=[l for _, _, l in ev][:4], returned=repr(res)[:80])
             else:
-                want = ("OverflowError",) if (oor and len(fns) == 1) else ("TypeError", "OverflowError") if oor else ("TypeError",)
+                strict = oor and len(fns) == 1 and all(
+                    s_ is None or self.acc(s_, p_["type"]) in ("yes", "oor") for s_, p_ in zip(sts[0][2], fns[0]["params"]))
+                want = ("OverflowError",) if strict else ("TypeError", "OverflowError") if (oor or any_oor) else ("TypeError",)
                 if exc == "IndexError" and g["kind"] == "op":
                     pass
                 elif exc not in want:
-                    self.bad(f"wrong-exception:got={exc},want={want[0]}:{self.neg_reason(sts, args, kw, recv, params_only=True)}", call=callsig, exc=excmsg)
+                    why = self.neg_reason(sts, args, kw, recv, params_only=True)
+                    if exc == "AttributeError" and "has no attribute 'value'" in excmsg:
+                        why = "param=enum-scoped"      # raised by the enum conversion, whichever argument was malformed
+                    self.bad(f"wrong-exception:got={exc},want={want[0]}:{why}", call=callsig, exc=excmsg)
         elif mode == "positive":
             exp_eids = set()
             for f, sl in cands:
@@ -814,7 +825,12 @@ class Driver:
                     self.count("keyword_calls_declined")
                 else:
                     sp = self.special(f0, sl0)
-                    if sp:
+                    if exc == "OverflowError" and oor:
+                        # the range check of another overload of the set raised instead of letting the next one try
+                        pt = next((tkind(p_["type"]) for f_, st_, sl_ in sts if st_ == "oor" for s_, p_ in zip(sl_, f_["params"])
+                                   if s_ is not None and self.acc(s_, p_["type"]) == "oor"), "?")
+                        self.bad(f"positive-rejected:exc=OverflowError:range-check-of-other-overload:param={pt}", call=callsig, exc=excmsg)
+                    elif sp:
                         self.bad(f"positive-rejected:exc={exc}{sp}", call=callsig, exc=excmsg)
                     else:
                         self.bad(f"positive-rejected:exc={exc}:kind={kindsig}:params={psig}" + (":kw" if kw else ""),
@@ -824,7 +840,13 @@ class Driver:
                 rans = ";".join(",".join(tcat(p["type"]) for p in f["params"]) if f else "?" for f in ran) or "nothing"
                 if len(ran) == 1 and ran[0] in fns:
                     rsl = self.bind(ran[0], args, kw)
-                    if rsl and all(s_ is None or self.acc(s_, p_["type"]) == "yes" or
+                    oorp = [p_ for s_, p_ in zip(rsl or [], ran[0]["params"]) if s_ is not None and self.acc(s_, p_["type"]) == "oor"]
+                    if oorp:
+                        # an overload whose integer parameter cannot hold the value took it anyway (no range check)
+                        self.bad(f"wrong-overload:out-of-range-int-accepted:param={tkind(oorp[0]['type'])}", call=callsig,
+                                 trace=[l for _, _, l in ev][:6])
+                        rans = None
+                    elif rsl and all(s_ is None or self.acc(s_, p_["type"]) == "yes" or
                                    (s_.c == "int" and p_["type"]["k"] == "float") for s_, p_ in zip(rsl, ran[0]["params"])):
                         # an overload tried earlier took a Python int for a float/double parameter although another
                         # overload matches the integer exactly
@@ -864,6 +886,8 @@ class Driver:
                     result_tr = self.check_ctor(f, res, fl, created, callsig)
                 else:
                     result_tr = self.check_result(f, res, fl, callsig, recv, args, kw)
+            if result_tr is None and exc is None and res is not None and (len(main) != 1 or main[0][0] not in exp_eids):
+                result_tr = self.adopt(res, callsig)     # whatever the wrong body returned has a lifetime too
         else:
             self.features.add(f"unspec:{kindsig}:{argcats}"[:80])
             if exc is None:
@@ -1502,10 +1526,14 @@ class Driver:
         if self.viol and any(k[0].startswith("name-missing:kind=class") for k in self.viol):
             return
         groups = list(self.groups.values())
-        if self.only:
-            groups = [g for g in groups if g["kind"] == "ctor" or self.only in (g["name"], f"{g['owner']}::{g['name']}")]
+        only = self.only
+        if only:
+            # focused replay of one callable group (witnesses of listed findings): constructors only category-exactly
+            groups = [g for g in groups if g["kind"] == "ctor" or only in (g["name"], f"{g['owner']}::{g['name']}")]
         ctors = [g for g in groups if g["kind"] == "ctor"]
         others = [g for g in groups if g["kind"] != "ctor"]
+        if only and only.startswith("ctor:"):
+            others = [g for g in ctors if g["owner"] == only[5:]]
         # populate: a few live instances per class
         for rnd in range(3):
             for g in ctors:
@@ -1513,9 +1541,26 @@ class Driver:
         # every group is called category-exactly at least once
         for g in others:
             for k in range(2):
-                self.make_call(g, "pos")
+                if g["kind"] != "ctor":
+                    self.make_call(g, "pos")
         for i in range(self.nsteps):
             x = r.random()
+            if only:
+                if only == "@property":
+                    self.do_property()
+                elif only == "@member":
+                    self.do_member()
+                elif only == "@seq":
+                    self.do_seq()
+                elif only == "@setitem":
+                    self.do_setitem()
+                elif x < 0.75 and others:
+                    self.make_call(r.choice(others))
+                elif x < 0.8:
+                    self.make_call(r.choice(ctors), "pos")
+                elif x < 0.93 and len(self.pool) > 6:
+                    self.drop(r.choice(self.pool))
+                continue
             if x < 0.62:
                 self.make_call(r.choice(others if others and r.random() < 0.85 else ctors))
             elif x < 0.68:
@@ -1540,7 +1585,8 @@ class Driver:
                 self.do_copy()
         # every remaining group once more (A, B, A)
         for g in reversed(others):
-            self.make_call(g, "pos")
+            if g["kind"] != "ctor":
+                self.make_call(g, "pos")
         # the end of the history: drop everything; exactly the library-owned instances stay alive
         while self.pool:
             self.drop(self.pool[-1], "final-drop")
